@@ -1,10 +1,11 @@
 import WpModel.Model.Wire
 import WpModel.Model.Absolute
+import WpModel.Model.FloatTrace
 import WpModel.Drive.Floats
 
 namespace Wp.Drive.Absolute
 open Wp Wp.Absolute
-open Wp.Drive.Floats (showErr)
+open Wp.Drive.Floats (showErr dim?)
 
 /-- `inf` → `none`, else a rational. -/
 def ext? : Sx → Option (Option Rat)
@@ -31,13 +32,6 @@ def rbox? : Sx → Option RBox
     pure ⟨← l.len?, ← r.len?, ← t.len?, ← b.len?, ← ml.len?, ← mr.len?, ← mt.len?, ← mb.len?,
           ← w.rat?, ← h.rat?, ← pl.rat?, ← pr.rat?, ← bl.rat?, ← br.rat?, ← pt.rat?, ← pb.rat?,
           ← bt.rat?, ← bb.rat?, ← px.rat?, ← py.rat?⟩
-  | _ => none
-
-/-- `auto` | `(px q)` | `(pct q)` -/
-def dim? : Sx → Option Dim
-  | .atom "auto" => some .auto
-  | .list [.atom "px", q] => q.rat?.map .px
-  | .list [.atom "pct", q] => q.rat?.map .pct
   | _ => none
 
 /-- `(left right top bottom width height ml mr mt mb pl pr pt pb bl br bt bb minW maxW minH maxH)` -/
@@ -86,6 +80,8 @@ def handle (cmd : String) (args : List Sx) : Option String :=
     pure (showErr (fun r => sp [showLen r.1.width, showLen r.1.ml, showLen r.1.mr, b2s r.2.1, showRat r.2.2,
         showErr showRat (finalX r)])
       (absoluteWidth b ltr cbx cbw))
+  | "abswidthinfo", [b, ltr, cbx, cbw] => do
+    pure (absoluteWidthBranch (← hbox? b) (← ltr.bool?) (← cbx.rat?) (← cbw.rat?))
   | "absheight", [b, cby, cbh, usedH] => do
     let b ← vbox? b
     let cby ← cby.rat?
@@ -119,6 +115,14 @@ def handle (cmd : String) (args : List Sx) : Option String :=
     let cn ← cn.rat?
     pure (showErr (fun r => sp ([r.x, r.y, r.mw, r.mh, r.width, r.height, r.ml, r.mr, r.mt, r.mb].map showRat))
       (absoluteBlock st (containingRect cb) ltr sx sy mc xc ch cn))
+  | "absrepldoc", [st, cb, ltr, sx, sy] => do
+    let st ← absStyle? st
+    let cb ← cbBox? cb
+    let ltr ← ltr.bool?
+    let sx ← sx.rat?
+    let sy ← sy.rat?
+    pure (showErr (fun r => sp ([r.x, r.y, r.mw, r.mh, r.width, r.height, r.ml, r.mr, r.mt, r.mb].map showRat))
+      (absoluteReplacedDoc st (containingRect cb) ltr sx sy))
   | "cbrect", [cb] => do
     let cb ← cbBox? cb
     let r := containingRect cb
